@@ -7,6 +7,8 @@
                                                 for i := range c.F { c.F[i] = … }                         (fixed array)
       for _, x := range c.F { x.Marshal() }     c.F = []T{}; for i < int(c.G) { guard; x.Unmarshal(blk[off:off+size]); … }
       if c.F != 0 { PutUint…(c.F) }             if WordCount == k { guard; c.F = …; offset += w }        (optional, trailing)
+      append(raw, c.Pad...)                     padLen := …; if padLen%2 == 1 { padLen++ } / if (len(P)+3)%2 == 1 { padLen = 1 };
+                                                c.Pad = blk[offset:offset+padLen]                         (padding arithmetic)
 
   `layoutML` / `layoutUL` read the slot sequence off the two programs (a loop contributes one `ints` / `subs`
   slot: the concatenation of its elements' encodings); `okUL` is the offset discipline; `MirrorLoops` says the
@@ -36,7 +38,8 @@ def layoutML : List MStmt → Option (List Slot)
 
 /-- `layoutU` with the loops: a counted integer loop must follow the `make` of the same list with the same
     count, a counted loop of nested values the reset of the same list; the loops advance `offset` themselves.
-    A buffer read that ends the program needs no advance behind it. -/
+    A buffer read that ends the program needs no advance behind it.  The statements that compute the local
+    `padLen` contribute no slot; a buffer of `padLen` bytes is a buffer slot whose length is `.pad`. -/
 def layoutUL : List UStmt → Option (List Slot)
   | [] => some []
   | .retIfEmpty _ _ :: r => layoutUL r
@@ -57,6 +60,9 @@ def layoutUL : List UStmt → Option (List Slot)
   | [.readBytes b f n] => some [.bytes b f (some n)]
   | .ifWordCount k [.guard b (.lit n), .readInt b' w e f, .advance (.lit m)] :: r =>
     if b = b' ∧ n = w ∧ m = w then (layoutUL r).map (.opt b w e f (some k) :: ·) else none
+  | .setPad _ :: r => layoutUL r
+  | .padRoundUp :: r => layoutUL r
+  | .padIfPOdd :: r => layoutUL r
   | _ :: _ => none
 
 /-- `guardFits` with the loops: the guard in front of an integer loop asks for no more than the loop reads
@@ -74,7 +80,8 @@ def guardFitsL (b : Blk) (e : Expr) : List UStmt → Bool
   | _ => false
 
 /-- `okU` with the loops: a counted loop runs to a count field that has been read; the window of a loop of
-    nested values is the size of the nested type (every element encodes to exactly that) -/
+    nested values is the size of the nested type (every element encodes to exactly that); `padLen` is computed
+    from fields that have been read, and a buffer may have that length -/
 def okUL (hp hd : Bool) : UPos → List String → List UStmt → Bool
   | _, _, [] => true
   | pos, seen, .retIfEmpty p d :: r => (p || !hp) && (d || !hd) && okUL hp hd pos seen r
@@ -84,7 +91,7 @@ def okUL (hp hd : Bool) : UPos → List String → List UStmt → Bool
   | pos, seen, .readQuad b _ _ f :: .advance _ :: r => pos.canRead b && okUL hp hd (pos.read b) (f :: seen) r
   | pos, seen, .readU8 b f :: .advance _ :: r => pos.canRead b && okUL hp hd (pos.read b) (f :: seen) r
   | pos, seen, .readBytes b f n :: .advance _ :: r =>
-    pos.canRead b && n.closed seen && okUL hp hd (pos.read b) (f :: seen) r
+    pos.canRead b && (n == .pad || n.closed seen) && okUL hp hd (pos.read b) (f :: seen) r
   | pos, seen, .readRest b f :: .advance _ :: r => pos.canRead b && okUL hp hd (pos.read b) (f :: seen) r
   | pos, seen, .readArr b f _ :: .advance _ :: r => pos.canRead b && okUL hp hd (pos.read b) (f :: seen) r
   | pos, seen, .readSub b f t win _ _ _ :: .advanceRead :: r =>
@@ -98,6 +105,9 @@ def okUL (hp hd : Bool) : UPos → List String → List UStmt → Bool
   | pos, seen, [.readBytes b _ n] => pos.canRead b && n.closed seen
   | pos, seen, .ifWordCount _ [.guard _ _, .readInt b _ _ f, .advance _] :: r =>
     pos.canRead b && okUL hp hd (pos.read b) (f :: seen) r
+  | pos, seen, .setPad e :: r => e.closed seen && okUL hp hd pos seen r
+  | pos, seen, .padRoundUp :: r => okUL hp hd pos seen r
+  | pos, seen, .padIfPOdd :: r => okUL hp hd pos seen r
   | _, _, _ :: _ => false
 
 /-- nested wire types a command marshals, those of list elements included -/
